@@ -96,11 +96,32 @@ func newPfxScn(t *Trace, pg pfxGeom, r *rand.Rand) (*pfxScn, error) {
 	return &pfxScn{t: t, pg: pg, h: h, r: r, told: map[int][]pfxHeld{}, owner: map[int]int{}, duids: map[int]dhcpv6.DUID{}}, nil
 }
 
+// clients 100+b are SIBLINGS of client b: a different client identifier built on the same hardware address (another
+// DUID type, or a DUID-LLT with another time) - different client identifiers, hence different clients
 func (s *pfxScn) duid(c int) dhcpv6.DUID {
 	if d, ok := s.duids[c]; ok {
 		return d
 	}
-	d := duidFor(c, s.r)
+	var d dhcpv6.DUID
+	if c >= 100 && c < 200 {
+		var mac net.HardwareAddr
+		switch b := s.duid(c - 100).(type) {
+		case *dhcpv6.DUIDLL:
+			mac = b.LinkLayerAddr
+			d = &dhcpv6.DUIDLLT{HWType: iana.HWTypeEthernet, Time: uint32(1 + s.r.Intn(1<<30)), LinkLayerAddr: mac}
+		case *dhcpv6.DUIDLLT:
+			mac = b.LinkLayerAddr
+			if s.r.Intn(2) == 0 {
+				d = &dhcpv6.DUIDLL{HWType: iana.HWTypeEthernet, LinkLayerAddr: mac}
+			} else {
+				d = &dhcpv6.DUIDLLT{HWType: iana.HWTypeEthernet, Time: b.Time + 1 + uint32(s.r.Intn(1000)), LinkLayerAddr: mac}
+			}
+		default:
+			d = duidFor(c, s.r)
+		}
+	} else {
+		d = duidFor(c, s.r)
+	}
 	s.duids[c] = d
 	return d
 }
@@ -570,6 +591,9 @@ func runPrefixSim(t *Trace, seed int64, count, shard, shards int) error {
 		}
 		for i := 0; i < steps; i++ {
 			c := r.Intn(nc)
+			if r.Intn(5) == 0 {
+				c += 100 // a sibling: same hardware address, another client identifier
+			}
 			nia := r.Intn(4)
 			if r.Intn(3) == 0 {
 				nia = 1
